@@ -160,6 +160,9 @@ def coqc(path, timeout=600, extra=()):
     timed out while 100+ other coqc processes compete) says nothing about the file: it is repeated once, alone
     (one retry at a time), with twice the time.  A Coq `Error:` is never retried."""
     cmd = ['coqc', '-Q', COQ, 'Spowtd'] + COQ_WARN + list(extra) + [path]
+    # a time limit only protects against a hung prover; on a loaded machine a generated file that needs 45 s alone
+    # was seen to exceed 900 s, and a timeout would be reported as a broken correspondence: be generous
+    timeout = max(timeout, 2400)
     rc, out, secs = sh(cmd, timeout=timeout, cwd=os.path.dirname(path))
     if rc != 0 and 'Error' not in out:
         with _COQC_RETRY_LOCK:
